@@ -274,6 +274,10 @@ pub fn run_worker(args: &Args, tier: &str, seed: u64) -> Report {
                         let tag = (idx / 2 / corpus::FILLS as u64 / corpus::GRID_LENS.len() as u64) as u8;
                         one_value(&mut rep, &fam, idx, &label, tag, corpus::fill(f, corpus::GRID_LENS[l] as usize), &replay);
                     }
+                    if fam == "bytes12" {
+                        let (tag, body) = corpus::bytes12_params(idx);
+                        one_value(&mut rep, &fam, idx, &label, tag, body, &replay);
+                    }
                     if fam == "withlang" {
                         let (tag, l, l1, l2) = corpus::withlang_params(idx);
                         one_value(&mut rep, &fam, idx, &label, tag, corpus::withlang_body(l, l1, l2), &replay);
